@@ -1208,6 +1208,8 @@ def _might_have_parameter(fn_or_cls, arg_name):
   arg_spec = _get_cached_arg_spec(fn)
   if arg_spec.varkw:  # pytype: disable=attribute-error
     return True
+  if arg_name in _get_positional_only_parameter_names(fn):
+    return False  # Can't be passed by keyword, which is how Gin passes values.
   return arg_name in arg_spec.args or arg_name in arg_spec.kwonlyargs  # pytype: disable=attribute-error
 
 
@@ -1235,6 +1237,18 @@ def _get_cached_arg_spec(fn: Callable[..., Any]) -> inspect.FullArgSpec:
       arg_spec = arg_spec._replace(args=arg_spec.args[1:])
     _ARG_SPEC_CACHE[fn] = arg_spec
   return arg_spec
+
+
+def _get_positional_only_parameter_names(fn):
+  """Returns the names of `fn`'s positional-only parameters.
+
+  Gin supplies values by keyword, so these can't be configured.
+  """
+  try:
+    parameters = inspect.signature(fn).parameters.values()
+  except (TypeError, ValueError):  # No signature available (some builtins).
+    return []
+  return [p.name for p in parameters if p.kind == p.POSITIONAL_ONLY]
 
 
 def _get_supplied_positional_parameter_names(fn, args):
@@ -1301,6 +1315,8 @@ def _get_default_configurable_parameter_values(fn, allowlist, denylist):
     A dictionary mapping configurable parameter names to their default values.
   """
   arg_vals = _get_kwarg_defaults(fn)
+  for k in _get_positional_only_parameter_names(fn):
+    arg_vals.pop(k, None)  # Positional-only parameters aren't configurable.
 
   # Now, eliminate keywords that are denylisted, or aren't allowlisted (if
   # there's an allowlist), or aren't representable as a literal value.
